@@ -136,6 +136,7 @@ def run(chk):
                                   % (i, nm, a.sr if a.sr is None else float(a.sr), b.sr if b.sr is None else float(b.sr), r.id, r.family), rp, key='routes-radius')
                     break
         # the direct radius reaches every neighbour the cell shares a face with
+        tol = Tol(inp)
         for f in d['faces']:
             if f.right is None or f.area is None or f.shift is not None:
                 continue
@@ -144,8 +145,9 @@ def run(chk):
                 if c.sr is None or c.volume == 0:
                     continue
                 d2 = sum((inp.ngens[me][k] - inp.ngens[other][k]) ** 2 for k in range(3))
-                tol = Tol(inp)
-                if abs(f.area) > tol.area * 100 and d2 > (c.sr * (1 + Fraction(1, 10 ** 9))) ** 2:
+                # the radius is computed from rounded vertex positions: allow the positional tolerance (scaled by the size of the
+                # coordinates, DESIGN 3.6) on top of a relative 1e-9 - a box at offset 1e6 rounds positions to 1e-10
+                if abs(f.area) > tol.area * 100 and d2 > (c.sr * (1 + Fraction(1, 10 ** 9)) + 2 * tol.pos) ** 2:
                     chk.violation('impl-vs-oracle', 'cell %d (direct build): neighbour %d with a face of area %.6g is farther (%.17g) than the safety radius %.17g (record %d, %s)'
                                   % (me, other, float(f.area), float(d2) ** 0.5, float(c.sr), r.id, r.family), rp, key='neighbour')
         chk.traces += 1
